@@ -108,7 +108,7 @@ func run(c *core.Ctx) error {
 
 	// ---- negative control of the specification: a Restore that forgets one component must be caught
 	for _, dev := range []string{"restore_skips_locals", "restore_skips_methods"} {
-		r, err := tlc.Run(tlc.Opts{SpecDir: specDir, Module: "Repl", Cfg: "ctl.cfg", Scratch: c.Scratch, Workers: 2, Timeout: 5 * time.Minute,
+		r, err := tlc.Run(tlc.Opts{SpecDir: specDir, Module: "Repl", Cfg: "ctl.cfg", Scratch: c.Scratch, Workers: 2, Timeout: 30 * time.Minute,
 			Extra: map[string][]byte{"ctl.cfg": []byte(cfgText(alphabet, 2, []string{dev}, false))}})
 		if err != nil {
 			return err
@@ -128,7 +128,7 @@ func run(c *core.Ctx) error {
 		}
 	}
 	t0 := time.Now()
-	mc, err := tlc.Run(tlc.Opts{SpecDir: specDir, Module: "Repl", Cfg: "mc.cfg", Scratch: c.Scratch, Workers: c.Workers, Timeout: 15 * time.Minute,
+	mc, err := tlc.Run(tlc.Opts{SpecDir: specDir, Module: "Repl", Cfg: "mc.cfg", Scratch: c.Scratch, Workers: c.Workers, Timeout: 40 * time.Minute,
 		Coverage: true, Extra: map[string][]byte{"mc.cfg": []byte(cfgText(alphabet, maxLen, nil, true))}, OnGen: onGen})
 	if err != nil {
 		return err
@@ -152,7 +152,7 @@ func run(c *core.Ctx) error {
 	}
 	nExh := len(histories)
 	c.Logf("TLC: %d distinct states, %d complete histories of length %d, %.0fs", mc.Distinct, nExh, maxLen, time.Since(t0).Seconds())
-	sim, err := tlc.Run(tlc.Opts{SpecDir: specDir, Module: "Repl", Cfg: "sim.cfg", Scratch: c.Scratch, Workers: 1, Timeout: 10 * time.Minute,
+	sim, err := tlc.Run(tlc.Opts{SpecDir: specDir, Module: "Repl", Cfg: "sim.cfg", Scratch: c.Scratch, Workers: 1, Timeout: 30 * time.Minute,
 		Simulate: fmt.Sprintf("num=%d", nSim), Depth: simLen*12 + 2, Seed: c.Seed,
 		Extra: map[string][]byte{"sim.cfg": []byte(cfgText(alphabet, simLen, nil, true))}, OnGen: onGen})
 	if err != nil {
